@@ -1133,3 +1133,161 @@ class RankKind(AbsInt):
         if not hasattr(self, 'sinks'):
             self.sinks = []
         self.sinks.append((node, fr.fn, rank, what))
+
+
+# ================================================================== E5b: affine dimension kinds
+# 'Pt' a point on the data axis, 'Df' a difference (length), 'Df2' a squared length, '1' dimensionless,
+# ('lit', v) a numeric literal (polymorphic: Df or 1), 'DATA' the sample itself (an array of Pt)
+class DimKind(AbsInt):
+    POINT_FUNCS = {'mean', 'median', 'min', 'max', 'amin', 'amax', 'nanmin', 'nanmax', 'nanmean', 'quantile', 'percentile'}
+    DIFF_FUNCS = {'std', 'ptp', 'nanstd'}
+    SQ_FUNCS = {'var', 'nanvar'}
+
+    def __init__(self, ctx, data_params=('X',)):
+        super().__init__(ctx)
+        self.data_params = set(data_params)
+        self.problems = []
+        self.self_kinds = {}
+
+    def const(self, node, fr):
+        v = getattr(node, 'value', None)
+        if isinstance(v, (int, float)) and not isinstance(v, bool):
+            return ('lit', v)
+        return TOP
+
+    def param(self, name, fr):
+        if name in fr.params:
+            return fr.params[name]
+        if name in self.data_params:
+            return 'DATA'
+        return TOP
+
+    def global_name(self, dotted, node, fr):
+        if dotted == 'copulas.utils.EPSILON':
+            return ('lit', 'eps')
+        return TOP
+
+    def self_attr(self, attr, node, fr):
+        return self.self_kinds.get(attr, TOP)
+
+    def join_distinct(self, a, b):
+        return TOP
+
+    @staticmethod
+    def lit(k):
+        return isinstance(k, tuple) and k and k[0] == 'lit'
+
+    def binop(self, node, l, r, fr):
+        op = node.op
+        L = self.lit
+        if l is TOP or r is TOP or l is BOT or r is BOT:
+            return TOP
+        if isinstance(op, (ast.Add, ast.Sub)):
+            if l == 'Pt' and r == 'Pt':
+                if isinstance(op, ast.Sub):
+                    return 'Df'
+                self.problems.append((node, fr.fn, 'adds two points of the data axis (not translation equivariant)'))
+                return TOP
+            if l == 'Pt' and (r == 'Df' or L(r)):
+                return 'Pt'
+            if r == 'Pt' and (l == 'Df' or L(l)) and isinstance(op, ast.Add):
+                return 'Pt'
+            if l == r and l in ('Df', 'Df2', '1'):
+                return l
+            if L(l) and L(r):
+                return ('lit', None)
+            if (l in ('Df', '1') and L(r)) or (L(l) and r in ('Df', '1')):
+                return l if not L(l) else r
+            if {l, r} <= {'Pt', 'Df', 'Df2', '1'}:
+                self.problems.append((node, fr.fn, f'combines a value of dimension {l} with one of dimension {r} by {"+" if isinstance(op, ast.Add) else "-"}'))
+            return TOP
+        if isinstance(op, ast.Mult):
+            if L(l) and L(r):
+                return ('lit', None)
+            for a, b in ((l, r), (r, l)):
+                if L(a) or a == '1':
+                    return b
+            if l == 'Df' and r == 'Df':
+                return 'Df2'
+            return TOP
+        if isinstance(op, ast.Div):
+            if L(r) or r == '1':
+                return l
+            if l == r and l in ('Df', 'Df2'):
+                return '1'
+            if l == 'Df2' and r == 'Df':
+                return 'Df'
+            if l == 'Pt' and r == 'Df':
+                self.problems.append((node, fr.fn, 'divides a point of the data axis by a scale without subtracting a location first'))
+            return TOP
+        if isinstance(op, ast.Pow):
+            if r == ('lit', 2) and l == 'Df':
+                return 'Df2'
+            if r == ('lit', 0.5) and l == 'Df2':
+                return 'Df'
+            if L(l) and L(r):
+                return ('lit', None)
+            return TOP
+        return TOP
+
+    def unaryop(self, node, v, fr):
+        return v
+
+    def subscript(self, node, base, fr):
+        if base == 'DATA':
+            return 'Pt' if not isinstance(node.slice, ast.Slice) else 'DATA'
+        if isinstance(base, Tup):
+            from .model import const_value
+            i = const_value(node.slice)
+            if isinstance(i, int) and -len(base.elems) <= i < len(base.elems):
+                return base.elems[i]
+        return TOP
+
+    def sequence(self, node, vals, fr):
+        return Tup(vals, 'list' if isinstance(node, ast.List) else 'tuple')
+
+    def _reduce(self, name, arg):
+        if arg != 'DATA':
+            return None
+        if name in self.POINT_FUNCS:
+            return 'Pt'
+        if name in self.DIFF_FUNCS:
+            return 'Df'
+        if name in self.SQ_FUNCS:
+            return 'Df2'
+        return None
+
+    def external_call(self, name, node, fr):
+        if name is None:
+            return TOP
+        leaf = name.split('.')[-1]
+        a = node.args
+        if a:
+            r = self._reduce(leaf, self.value(a[0], fr))
+            if r is not None:
+                return r
+        if leaf in ('sqrt',) and a:
+            v = self.value(a[0], fr)
+            return 'Df' if v == 'Df2' else (v if self.lit(v) else TOP)
+        if leaf in ('abs', 'absolute') and a:
+            return self.value(a[0], fr)
+        if leaf == 'unique' and a and self.value(a[0], fr) == 'DATA':
+            return 'DATA'
+        if name in ('scipy.optimize.fmin_slsqp', 'scipy.optimize.fmin', 'scipy.optimize.fmin_bfgs'):
+            x0 = kwarg(node, 'x0', 1)
+            return self.value(x0, fr) if x0 is not None else TOP  # the minimiser has the dimensions of its start value
+        if leaf == 'fit' and name.startswith('scipy.stats.'):
+            dist = name[:-4]
+            from . import contracts as K
+            names = K.SCIPY_DIST_PARAMS.get(dist)
+            if names:
+                return Tup(['Pt' if n == 'loc' else 'Df' if n == 'scale' else '1' for n in names])
+        return TOP
+
+    def method_call(self, meth, node, recv, fr):
+        r = self._reduce(meth, recv)
+        if r is not None:
+            return r
+        if meth in ('to_numpy', 'copy', 'astype', 'tolist', 'ravel') and recv == 'DATA':
+            return 'DATA'
+        return None
